@@ -473,6 +473,26 @@ fn run_cli(env: &Env, root: &str, args: &[String], cwd: &str, faults: &[Fault], 
         .stderr(Stdio::piped())
         .spawn()
         .expect("spawn rasn_compiler_cli");
+    // both pipes are drained while the child runs: a tool that prints more than a pipe buffer
+    // (64 KiB of bindings on stdout, a long warning on stderr) would otherwise block in `write`
+    // and look like one that does not terminate
+    use std::io::Read;
+    let mut so = child.stdout.take();
+    let mut se = child.stderr.take();
+    let t_out = std::thread::spawn(move || {
+        let mut b = vec![];
+        if let Some(p) = so.as_mut() {
+            let _ = p.read_to_end(&mut b);
+        }
+        b
+    });
+    let t_err = std::thread::spawn(move || {
+        let mut b = vec![];
+        if let Some(p) = se.as_mut() {
+            let _ = p.read_to_end(&mut b);
+        }
+        b
+    });
     // bounded wait (the CLI has no reason to take more than a fraction of a second)
     let start = std::time::Instant::now();
     let mut timed_out = false;
@@ -490,14 +510,16 @@ fn run_cli(env: &Env, root: &str, args: &[String], cwd: &str, faults: &[Fault], 
             Err(_) => break,
         }
     }
-    let o = child.wait_with_output().expect("collect cli output");
+    let status = child.wait().expect("collect cli status");
+    let stdout = t_out.join().unwrap_or_default();
+    let stderr = t_err.join().unwrap_or_default();
     let text = std::fs::read_to_string(&log).unwrap_or_default();
     let _ = std::fs::remove_file(&log);
     CliRun {
-        status: o.status.code(),
-        signal: o.status.signal(),
-        stdout: o.stdout,
-        stderr: String::from_utf8_lossy(&o.stderr).into_owned(),
+        status: status.code(),
+        signal: status.signal(),
+        stdout,
+        stderr: String::from_utf8_lossy(&stderr).into_owned(),
         events: shim::parse_log(&text).into_iter().filter(|e| !e.path.contains(".simio-log")).collect(),
         timed_out,
     }
